@@ -151,12 +151,30 @@ func c14(r *rand.Rand, tier string, classFile string, tr *trace.Buf) {
 			defer func() { <-sem }()
 			for _, content := range contents {
 				e := eEvent{Ev: "xverify", W: c.W, SigLen: c.SigLen, B0: c.B0, B1s: b1s, Content: content, Intact: true}
-				sig := make([]byte, c.SigLen)
+				// signature and message live in one buffer, each followed by guard bytes within its capacity
+				const guard = 48
+				mlen := rr.Intn(64)
+				whole := make([]byte, c.SigLen+guard+mlen+guard)
+				for i := range whole {
+					whole[i] = 0x5a
+				}
+				sig := whole[:c.SigLen]
 				var pk [67]uint8
-				msg := make([]byte, rr.Intn(64))
+				msg := whole[c.SigLen+guard : c.SigLen+guard+mlen]
 				fill(sig, content, rr)
 				fill(pk[:], content, rr)
 				rr.Read(msg)
+				// a structurally plausible index (so that verification runs to the end): top bit of the tree set
+				if c.SigLen >= 2180+32 {
+					hh := uint((c.SigLen - 2180) / 32)
+					if hh >= 1 && hh <= 30 {
+						v := uint32(1)<<(hh-1) | uint32(rr.Intn(1<<(hh-1)))
+						if content == "random" {
+							sig[0], sig[1], sig[2], sig[3] = byte(v>>24), byte(v>>16), byte(v>>8), byte(v)
+						}
+					}
+				}
+				w0 := dup(whole)
 				pk[0] = uint8(c.B0)
 				for _, b1 := range b1s {
 					pk[1] = uint8(b1)
@@ -169,7 +187,7 @@ func c14(r *rand.Rand, tier string, classFile string, tr *trace.Buf) {
 						}
 					}
 					e.Outs = append(e.Outs, o)
-					e.Intact = e.Intact && string(s0) == string(sig) && p0 == pk && string(m0) == string(msg)
+					e.Intact = e.Intact && string(s0) == string(sig) && p0 == pk && string(m0) == string(msg) && string(w0) == string(whole)
 				}
 				evs[ci] = append(evs[ci], e)
 			}
